@@ -1584,3 +1584,22 @@ B('c15-tile-length-two', 'C15', 'R15.h', LANLIGHT,
   '            "length": 1,\n            "colors"', '            "length": 2,\n            "colors"')
 B('c15-size-not-asked', 'C15', 'R15.h', LANLIGHT,
   "        if self._width is None or self._height is None:\n            self._get_size()", "        if self._width is None and self._height is None:\n            self._get_size()")
+B('c20-loaded-program-not-kept', 'C20', 'R20.h', SCRIPTJOB,
+  "        if self._parser.parse_file(file_name):\n            self._program = self._parser.get_program()",
+  "        if self._parser.parse_file(file_name):\n            pass")
+B('c20-stop-route-does-not-stop', 'C20', 'R20.i', FRONT,
+  "            web_app.stop_script(path)\n", "")
+B('c09-stop-all-route-does-nothing', 'C09', 'R20.i', FRONT,
+  "        script_control = web_app.get_script_control('stop-all')\n        web_app.stop_all()", "        script_control = web_app.get_script_control('stop-all')")
+B('c20-running-state-not-reported', 'C20', 'R20.j', WEBAPP,
+  "            script.running = self._jobs.is_running(script.path)\n", "")
+B('c19-flush-drops-pending', 'C19', 'R19.g', VMIO,
+  "        for remaining in self._unnamed:\n            output.out(remaining)\n", "")
+B('c04-disc-empty-no-null', 'C04', 'R04.i', VMDISC,
+  "        if len(name_list) == 0:\n            self._reg.result = Operand.NULL\n        else:", "        if len(name_list) == 0:\n            pass\n        else:")
+B('c04-discm-empty-indexed', 'C04', 'R04.i', VMDISC,
+  "        if name_list and len(name_list) > 0:", "        if name_list and len(name_list) >= 0:")
+B('c04-counter-not-cleared', 'C04', 'R04.j', LOOP,
+  "            code_gen.add_instruction(OpCode.MOVEQ, 0, LoopVar.COUNTER)\n", "")
+B('c04-cycle-full-turn-wrong', 'C04', 'R04.j', LOOP,
+  "        code_gen.push(65536)", "        code_gen.push(65535)")
